@@ -381,6 +381,14 @@ func (t *Transaction) replaceChecked(handle Handle, query, sort, repl bsonkit.Do
 
 	// check namespace
 	if t.catalog.Namespaces[handle] == nil && !upsert {
+		// let the caller reject the (empty) result
+		if check != nil {
+			err = check(&Result{})
+			if err != nil {
+				return nil, err
+			}
+		}
+
 		return &Result{}, nil
 	}
 
@@ -504,6 +512,14 @@ func (t *Transaction) updateChecked(handle Handle, query, sort, update bsonkit.D
 
 	// check namespace
 	if t.catalog.Namespaces[handle] == nil && !upsert {
+		// let the caller reject the (empty) result
+		if check != nil {
+			err = check(&Result{})
+			if err != nil {
+				return nil, err
+			}
+		}
+
 		return &Result{}, nil
 	}
 
@@ -616,6 +632,14 @@ func (t *Transaction) deleteChecked(handle Handle, query, sort bsonkit.Doc, skip
 
 	// check namespace
 	if t.catalog.Namespaces[handle] == nil {
+		// let the caller reject the (empty) result
+		if check != nil {
+			err = check(&Result{})
+			if err != nil {
+				return nil, err
+			}
+		}
+
 		return &Result{}, nil
 	}
 
